@@ -1,13 +1,14 @@
 package main
 
 import (
+	"sort"
 	"fmt"
 	"go/constant"
 	"go/token"
 	"go/types"
 	"strings"
 
-	"golang.org/x/tools/go/ssa"
+	"gclverify/xt/ssa"
 )
 
 func init() {
@@ -455,42 +456,78 @@ func runC11(p *Prog, l *Ledger) {
 					cfgArg = a
 				}
 			}
-			ordStored := "" // "" = unset, "?" = not a constant
+			var cfgAlloc *ssa.Alloc
 			if u, ok := cfgArg.(*ssa.UnOp); ok {
-				if al, ok := u.X.(*ssa.Alloc); ok {
-					vals := storesInto(al, cfgOrd)
-					switch len(vals) {
-					case 0:
-					case 1:
-						if n, ok := constName(vals[0], ordNames); ok {
-							ordStored = n
-						} else {
-							ordStored = "?"
-						}
-					default:
-						ordStored = "?"
-					}
-				} else {
-					ordStored = "?"
+				cfgAlloc, _ = u.X.(*ssa.Alloc)
+			}
+			// ordOnPath: the ordering the config literal holds when the path reaches the call:
+			// "" = unset (zero value), "?" = not a constant of the ordering type
+			ordOnPath := func(pa *Path) string {
+				if cfgAlloc == nil {
+					return "?"
 				}
-			} else {
-				ordStored = "?"
+				ord := ""
+				pa.Each(func(step int, ins ssa.Instruction) bool {
+					if ins == ssa.Instruction(call) {
+						return false
+					}
+					st, ok := ins.(*ssa.Store)
+					if !ok {
+						return true
+					}
+					fa, ok := st.Addr.(*ssa.FieldAddr)
+					if !ok || fa.X != ssa.Value(cfgAlloc) || fa.Field != cfgOrd.Index {
+						return true
+					}
+					if n, ok := constName(pa.Resolve(st.Val, step), ordNames); ok {
+						ord = n
+					} else {
+						ord = "?"
+					}
+					return true
+				})
+				return ord
 			}
 			name := f.Name()
 			lower := strings.ToLower(name)
+			named := ""
 			switch {
 			case strings.Contains(lower, "fifo"):
-				l.Check(strings.HasSuffix(ordStored, "FIFO"), "O3", key, p.At(call), "FIFO-named constructor passes the FIFO ordering", "a constructor named FIFO does not configure FIFO ordering (got "+orNone(ordStored)+")")
+				named = "FIFO"
 			case strings.Contains(lower, "lifo"):
-				l.Check(strings.HasSuffix(ordStored, "LIFO") || ordStored == "", "O3", key, p.At(call), "LIFO-named constructor passes LIFO or relies on the LIFO default", "a constructor named LIFO does not configure LIFO ordering (got "+orNone(ordStored)+")")
-			case p.InPkg(f, "patterns/pool") && poolNames != nil:
-				// the pool ordering matched on the path reaching this call
-				matched := ""
-				EnumPaths(f, 400000, func(pa *Path) bool {
-					if !pa.Contains(call) {
-						return true
+				named = "LIFO"
+			}
+			switch {
+			case named != "":
+				got := map[string]bool{}
+				EnumPathsPrefix(f, call, 400000, func(pa *Path) bool {
+					got[ordOnPath(pa)] = true
+					return true
+				})
+				ok := len(got) > 0
+				var gl []string
+				for g := range got {
+					gl = append(gl, orNone(g))
+					if !(strings.HasSuffix(g, named) || (named == "LIFO" && g == "")) {
+						ok = false
 					}
+				}
+				sort.Strings(gl)
+				if named == "FIFO" {
+					l.Check(ok, "O3", key, p.At(call), "FIFO-named constructor passes the FIFO ordering", "a constructor named FIFO does not configure FIFO ordering (got "+strings.Join(gl, ", ")+")")
+				} else {
+					l.Check(ok, "O3", key, p.At(call), "LIFO-named constructor passes LIFO or relies on the LIFO default", "a constructor named LIFO does not configure LIFO ordering (got "+strings.Join(gl, ", ")+")")
+				}
+			case p.InPkg(f, "patterns/pool") && poolNames != nil:
+				// per path reaching this call: the pool ordering that was matched and the limiter ordering configured
+				type res struct {
+					got map[string]bool
+				}
+				byPool := map[string]*res{}
+				unmatched := false
+				EnumPathsPrefix(f, call, 400000, func(pa *Path) bool {
 					st := pa.StepOf(call)
+					matched := ""
 					for _, r := range pa.Rels(st) {
 						if r.Op != token.EQL {
 							continue
@@ -501,15 +538,38 @@ func runC11(p *Prog, l *Ledger) {
 							}
 						}
 					}
-					return matched == ""
+					if matched == "" {
+						unmatched = true
+						return true
+					}
+					if byPool[matched] == nil {
+						byPool[matched] = &res{got: map[string]bool{}}
+					}
+					byPool[matched].got[ordOnPath(pa)] = true
+					return true
 				})
-				if matched == "" {
+				if unmatched || len(byPool) == 0 {
 					l.Unknown("O3", key, p.At(call), "cannot determine which pool ordering selects this queue limiter")
-					continue
 				}
-				suffix := matched[strings.LastIndex(matched, "Ordering")+len("Ordering"):]
-				l.Check(strings.HasSuffix(ordStored, suffix), "O3", key, p.At(call), fmt.Sprintf("pool %s configures limiter ordering %s", matched, ordStored),
-					fmt.Sprintf("pool ordering %s configures the queue limiter with %s", matched, orNone(ordStored)))
+				var pools []string
+				for m := range byPool {
+					pools = append(pools, m)
+				}
+				sort.Strings(pools)
+				for _, matched := range pools {
+					suffix := matched[strings.LastIndex(matched, "Ordering")+len("Ordering"):]
+					ok := true
+					var gl []string
+					for g := range byPool[matched].got {
+						gl = append(gl, orNone(g))
+						if !strings.HasSuffix(g, suffix) {
+							ok = false
+						}
+					}
+					sort.Strings(gl)
+					l.Check(ok, "O3", p.Key(f)+"/pool:"+matched, p.At(call), fmt.Sprintf("pool %s configures limiter ordering %s", matched, strings.Join(gl, ", ")),
+						fmt.Sprintf("pool ordering %s configures the queue limiter with %s", matched, strings.Join(gl, ", ")))
+				}
 			default:
 				// generic: config passed through unchanged or defaulted
 				l.OK("O3", key, p.At(call), "passes its caller's config / the zero config (default ordering)")
